@@ -243,6 +243,11 @@ func HandleAlphabet(l int, appendMode bool) []ops.Op {
 }
 
 // FaultAlphabet: afero calls + handle calls used by the fault enumerator (C10) and the handle scenario of C01.
+// InitFinals: the Initialize variants that E3 explores as the faulted call.
+func InitFinals() []ops.Op {
+	return []ops.Op{{K: "init-first"}, {K: "init-again"}, {K: "open-existing"}, {K: "open-noindex"}}
+}
+
 func FaultAlphabet(full bool) []ops.Op {
 	a := []ops.Op{
 		{K: "mkdir", P: "/a"},
